@@ -72,7 +72,7 @@ func validate(s *Scenario) string {
 		if len(cp.Packets) == 0 {
 			return "empty capture"
 		}
-		if ci > 0 && cp.Packets[0].TimeUS < s.Captures[ci-1].Packets[0].TimeUS {
+		if ci > 0 && s.Unordered == 0 && cp.Packets[0].TimeUS < s.Captures[ci-1].Packets[0].TimeUS {
 			return "captures not ordered by first packet"
 		}
 		for i, p := range cp.Packets {
@@ -80,7 +80,7 @@ func validate(s *Scenario) string {
 				return fmt.Sprintf("capture %d packet %d: in two files or wrong back reference", ci, i)
 			}
 			seen[p] = true
-			if i > 0 && p.TimeUS <= cp.Packets[i-1].TimeUS {
+			if i > 0 && s.Unordered == 0 && s.EqualStamps == 0 && p.TimeUS <= cp.Packets[i-1].TimeUS {
 				return fmt.Sprintf("capture %d not sorted by time at %d", ci, i)
 			}
 			if n >= len(s.Packets) || s.Packets[n] != p {
